@@ -410,11 +410,11 @@ def load_dsis():
     return ns
 
 
-def sym_dsis(name, w, n=2):
+def sym_dsis(name, w, n=2, max_cardinality=None):
     c = cur()
     D = load_dsis()["DiscreteStridedIntervalSet"]
     members = [absval.sym(f"{name}{i}", w, nonempty=True) for i in range(n)]
-    return D(bits=w, si_set=set(members)), members
+    return D(bits=w, si_set=set(members), max_cardinality=max_cardinality), members
 
 
 def dsis_contains(res, v):
@@ -440,7 +440,10 @@ def ob_dsis(op, w, tier="quick", other="si"):
     from claripy.backends.backend_vsa.bool_result import BoolResult
 
     def body(c):
-        d, ms = sym_dsis("a", w)
+        # the cardinality limit above which the set collapses into one interval: the default (256: never reached here) or a small one, so that
+        # a union / intersection collapses half-way through its members
+        mc = [None, 1, 3][c.choose([True] * 3, "max_cardinality")] if op in ("union", "intersection") else None
+        d, ms = sym_dsis("a", w, max_cardinality=mc)
         i = c.choose([True] * len(ms), "member-interval")
         x = absval.sym_member("x", ms[i])
         if op in DSIS_UN:
@@ -468,7 +471,7 @@ def ob_dsis(op, w, tier="quick", other="si"):
                 k = SymInt.fresh("k", 0, (1 << w) - 1)
                 o, y = k, z3.Extract(w - 1, 0, k.z)
             else:
-                o, os_ = sym_dsis("b", w)
+                o, os_ = sym_dsis("b", w, max_cardinality=mc)
                 j = c.choose([True] * len(os_), "other-member-interval")
                 y = absval.sym_member("y", os_[j])
             if op in ("__floordiv__", "__mod__"):
@@ -663,3 +666,38 @@ def ob_canary(tier="quick"):
         c.check("canaries/all-fail", not bad, "canaries that did not fail: " + "; ".join(bad))
         return "ok"
     return explore(body, _opts(tier))
+
+
+def replay_dsis_setop(task, failure):
+    """native: union / intersection of two real DiscreteStridedIntervalSets of two members each, members from a pool of intervals of the task's
+    width, with the default and with small cardinality limits (so that the result collapses half-way): every common / either member must be in
+    the result"""
+    import itertools
+    import logging
+    from claripy.backends.backend_vsa import StridedInterval as SI, DiscreteStridedIntervalSet as D
+    from vf.contracts.si import py_members as mem
+    logging.getLogger("claripy").setLevel(logging.CRITICAL)
+    kw = task["kwargs"]
+    op, w, other = kw["op"], kw.get("w", 2), kw.get("other", "si")
+    pool = vsaops._pool(w)
+    pool = pool[:: max(1, len(pool) // 7)]
+
+    def members(r):
+        if isinstance(r, D):
+            return set().union(*[mem(x) for x in r._si_set]) if r._si_set else set()
+        return mem(r)
+    for mc in (1, 3, None):
+        for a0, a1 in itertools.combinations(pool, 2):
+            for b in (itertools.combinations(pool, 2) if other == "dsis" else [(x,) for x in pool]):
+                d = D(bits=w, si_set={a0.copy(), a1.copy()}, max_cardinality=mc)
+                o = D(bits=w, si_set={x.copy() for x in b}, max_cardinality=mc) if other == "dsis" else b[0].copy()
+                A, B = mem(a0) | mem(a1), set().union(*[mem(x) for x in b])
+                try:
+                    r = getattr(d, op)(o)
+                except Exception as ex:  # noqa
+                    return {"reproduced": True, "text": f"DSIS{{{a0}, {a1}}} (max_cardinality={mc}).{op}({[str(x) for x in b]}) raises {type(ex).__name__}: {ex}"}
+                want = (A | B) if op == "union" else (A & B)
+                lost = want - members(r)
+                if lost:
+                    return {"reproduced": True, "text": f"DSIS{{{a0}, {a1}}} (max_cardinality={mc}).{op}(DSIS{[str(x) for x in b]}) = {r}: loses {sorted(lost)}"}
+    return {"reproduced": False, "text": "no native reproducer in the pool"}
